@@ -69,10 +69,10 @@ struct inplace_func_vtable {
             }
         }}
         , copy_ptr{[](storage_ptr_t dstPtr, storage_ptr_t srcPtr) -> void {
-            ::new (dstPtr) C{(*static_cast<C*>(srcPtr))};
+            ::new (dstPtr) C(*static_cast<C*>(srcPtr));
         }}
         , relocate_ptr{[](storage_ptr_t dstPtr, storage_ptr_t srcPtr) -> void {
-            ::new (dstPtr) C{etl::move(*static_cast<C*>(srcPtr))};
+            ::new (dstPtr) C(etl::move(*static_cast<C*>(srcPtr)));
             static_cast<C*>(srcPtr)->~C();
         }}
         , destructor_ptr{[](storage_ptr_t srcPtr) -> void { static_cast<C*>(srcPtr)->~C(); }}
@@ -147,7 +147,7 @@ public:
         static constexpr vtable_t const vt{detail::wrapper<C>{}};
         _vtable = etl::addressof(vt);
 
-        ::new (etl::addressof(_storage)) C{etl::forward<T>(closure)};
+        ::new (etl::addressof(_storage)) C(etl::forward<T>(closure));
     }
 
     template <size_t Cap, size_t Align>
